@@ -202,6 +202,204 @@ def gen_sliver2(rng):
             "eps": F(1, 2 ** 20), "aeps": rng.choice([F(1, 2 ** 10), F(0)])}
 
 
+# ---- size thresholds x decimal coordinates (oracle only) ----
+# The constructor checks all pairs of cells of every refinement result: behaviour that changes above 1000 / 2048 / 4096
+# cells AND depends on coordinates that binary64 cannot represent (borders of adjacent cells computed as centre +-
+# half side differ by an ulp) is reached only by decimal layouts refined to that many cells.
+DEC_SIDES = [F(1, 10), F(3, 10), F(7, 10), F(11, 10), F(7, 100), F(13, 10), F(9, 10), F(17, 100)]
+DEC_RATIOS = [F(1, 10), F(3, 10), F(1, 2), F(6, 10), F(7, 10), F(9, 10)]
+BIGDEC_QUICK = [(1026, "refine"), (1025, "uniform"), (1024, "griddify")]
+BIGDEC_TARGETS = [1000, 1001, 1002, 1024, 1026, 1056, 1100, 1001, 2048, 4100]
+
+
+def _dec_cell(x0, y0, w, h, al, depth=0, fixed=False):
+    return {"rect": {"cx": x0 + w / 2, "cy": y0 + h / 2, "w": w, "h": h, "fixed": fixed, "hard": fixed, "region": "_",
+                     "loc": "NOPOLY"}, "alloc": al, "depth": depth}
+
+
+EXACT_SIDES = [F(1, 4), F(3), F(5, 8)]          # the size alone (thorough tier): the same results from representable sides
+
+
+def gen_big_decimal(rng, target, op, follow=True, exact=False):
+    """A decimal layout (cell sides 0.1, 0.3, 0.7, 1.1 ...) and ONE operation whose result has `target` cells
+    (griddify: the nearest product of two factors), optionally followed by another operation on the large result."""
+    sides = EXACT_SIDES if exact else DEC_SIDES
+    s, s2 = rng.choice(sides), rng.choice(sides)
+    if rng.random() < 0.5:
+        s2 = s
+    ox, oy = rng.choice([F(0), F(0), s, F(1, 10), F(23, 10)]), rng.choice([F(0), F(0), s2, F(3, 10)])
+    t = rng.choice([F(6, 10), F(1, 2), F(7, 10)])
+    low = lambda: [[m, rng.choice([q for q in DEC_RATIOS if q <= t])] for m in rng.sample(ac.MODS[:4], rng.choice([1, 2, 2, 3]))]
+    high = lambda: [[rng.choice(ac.MODS[:3]), rng.choice([q for q in DEC_RATIOS if q > t] + [F(1)])]] + \
+                   ([[rng.choice(["a_b", "Z9"]), F(1, 10)]] if rng.random() < 0.3 else [])
+    cells, ops = [], []
+    if op == "refine":
+        # n cells in a grid, m of them selected by the threshold: n + m (2^L - 1) = target
+        choices = []
+        for L in range(1, 11):
+            for m in range(1, target // (2 ** L) + 1):
+                n = target - m * (2 ** L - 1)
+                if m <= n <= max(m + 8, 12) and n <= 160:
+                    choices.append((L, m, n))
+        L, m, n = rng.choice(choices)
+        cols = max(1, int(n ** 0.5) + rng.choice([0, 1, 2]))
+        sel = set(rng.sample(range(n), m))
+        for i in range(n):
+            al = low() if i in sel else (high() if rng.random() < 0.7 else [])
+            fixed = i not in sel and rng.random() < 0.15
+            cells.append(_dec_cell(ox + s * (i % cols), oy + s2 * (i // cols), s, s2, [["FX", F(1)]] if fixed else al,
+                                   rng.choice([0, 0, 1]), fixed))
+        if not any(c["alloc"] for c in cells):
+            cells[0]["alloc"] = low()
+        ops = [["refine", t, L]]
+    elif op == "uniform":
+        # a cell at depth md - j for every set bit j of target (each becomes 2^j cells), md around 10
+        odd = target if target % 2 else target - 1
+        bits = [j for j in range(odd.bit_length()) if odd >> j & 1] + ([] if target % 2 else [0])
+        md = max(bits) + rng.choice([0, 0, 1, 3])
+        if rng.random() < 0.5 and max(bits) >= 2:       # split the largest share over two or four cells
+            k = rng.choice([1, 2])
+            bits = [b for b in bits if b != max(bits)] + [max(bits) - k] * 2 ** k
+        rng.shuffle(bits)
+        cols = rng.choice([1, 2, 3, 4])
+        for i, j in enumerate(bits):
+            cells.append(_dec_cell(ox + s * (i % cols), oy + s2 * (i // cols), s, s2,
+                                   low() if rng.random() < 0.8 else [], md - j))
+        if not any(c["alloc"] for c in cells):
+            cells[0]["alloc"] = low()
+        ops = [["uniform"]]
+    else:
+        # a large cell, a row of nx cells above it and a column of ny cells beside it: (nx + 1) (ny + 1) cells
+        best = None
+        for nx in range(20, 70):
+            ny = max(20, round(target / (nx + 1)) - 1)
+            if ny <= 70 and (best is None or abs((nx + 1) * (ny + 1) - target) < abs((best[0] + 1) * (best[1] + 1) - target)
+                             or abs((nx + 1) * (ny + 1) - target) == abs((best[0] + 1) * (best[1] + 1) - target) and rng.random() < 0.3):
+                best = (nx, ny)
+        nx, ny = best
+        if s2 * 10 > s * 16:          # the cuts of the large cell at spacing s must not be slivers of its height (1% rule)
+            s2 = s
+        wide = rng.random() < 0.4                         # some cells of the row / column twice as wide
+        ws = [s * (2 if wide and rng.random() < 0.2 else 1) for _ in range(nx)]
+        hs = [s2 * (2 if wide and rng.random() < 0.2 else 1) for _ in range(ny)]
+        W, H = sum(ws), sum(hs)
+        cells.append(_dec_cell(ox, oy, W, H, low()))
+        x = ox
+        for w in ws:
+            cells.append(_dec_cell(x, oy + H, w, s2, low() if rng.random() < 0.5 else high()))
+            x += w
+        y = oy
+        for h in hs:
+            cells.append(_dec_cell(ox + W, y, s, h, low() if rng.random() < 0.5 else []))
+            y += h
+        cells.append(_dec_cell(ox + W, oy + H, s, s2, high()))
+        ops = [["griddify"]]
+    rng.shuffle(cells)
+    if follow and rng.random() < 0.25 and target <= 1100:
+        ops.append(rng.choice([["griddify"], ["uniform"], ["refine", F(0), 1], ["refine", t, 1]]))
+    return {"kind": f"{'exact' if exact else 'decimal'}-big-{op}", "stream": "decimal", "big": 2 * target + 200, "cells": cells, "ops": ops,
+            "ths": [F(0), t, F(1)] if len(cells) <= 100 else [], "eps": None, "aeps": None}
+
+
+# ---- the 1% rule against pieces that change during griddify ----
+# (W, d, [c ...]): a cell W wide, a line at distance d from its side with d <= 1% of W (exempt for the whole cell) and
+# perpendicular cuts at c with d > 1% of c (due for the piece c wide).  The float 0.01 is a little above 1/100; no tie.
+SLIVER3 = [(F(128), F(1), [16, 32, 64]), (F(128), F(5, 4), [16, 32, 64, 96]), (F(128), F(1, 2), [16, 32]),
+           (F(64), F(1, 2), [8, 16, 32]), (F(64), F(5, 8), [8, 16, 32, 48]), (F(256), F(2), [32, 64, 128]),
+           (F(256), F(5, 2), [64, 128, 192]), (F(256), F(1), [32, 64]), (F(32), F(1, 4), [4, 8, 16]),
+           (F(100), F(1), [20, 25, 50, 75]), (F(100), F(1, 2), [20, 25, 10])]
+SLIVER3_KINDS = ["piece", "piece", "piece", "piece-T", "piece-T", "pair", "pair-T", "piece-kept"]
+
+
+def gen_sliver3(rng, idx=None):
+    """Layouts on which the sliver rule gives another answer for a PIECE than for the cell it was cut from.
+    'piece': a wide cell A, a flat neighbour B beside one end of it whose side is a line y within 1% of A's width from
+    A's bottom or top (no cut of A as a whole), and a cell C above or below A whose side cuts A at x = c into a piece
+    narrow enough for the same line to be a due cut: griddify applies the x cuts first, so the piece must be cut at y.
+    'piece-T' is the transposed layout (the sliver line is an x line, tried BEFORE the y cut: it stays).
+    'pair': two lines closer to each other than 1% of the other side in the middle of a cell: the first is cut, the
+    second is then a sliver of the piece although it is none of the cell.  'piece-kept': 'piece' plus a cell in which
+    the line is a due cut anyway.  Systematic over kind x (W, d) x position of the perpendicular cut x side of the sliver."""
+    i = rng.randrange(10 ** 6) if idx is None else idx
+    kind = SLIVER3_KINDS[i % len(SLIVER3_KINDS)]
+    W, d, cs = SLIVER3[(i // len(SLIVER3_KINDS) + i) % len(SLIVER3)]
+    H = F(rng.choice([8, 10, 16, 12]))
+    bw, ch = F(rng.choice([4, 10, 16])), F(rng.choice([4, 10, 8]))
+    mods = ac.MODS[:3]
+    boxes = []          # (x0, y0, x1, y1, role)
+    if kind.startswith("pair"):
+        # A = [0, L] x [0, h]; above it a row with boundaries p and p + dd, dd <= 1% of h < p, L - p - dd
+        h, dd = rng.choice([(F(32), F(1, 4)), (F(64), F(1, 2)), (F(16), F(1, 8)), (F(64), F(5, 8))])
+        L = F(rng.choice([8, 12, 16]))
+        p = F(rng.randrange(2, int(L) * 2 - 3), 2)
+        marks = [F(0), p, p + dd, L]
+        if rng.random() < 0.4:
+            marks = sorted(set(marks + [F(rng.randrange(2, int(L) * 2 - 2), 2) for _ in range(rng.choice([1, 2]))]))
+        boxes = [(F(0), F(0), L, h, "A")] + [(a, h, b, h + ch, "R") for a, b in zip(marks, marks[1:])]
+        if rng.random() < 0.3:
+            boxes.append((L, F(0), L + bw, h / 2, "S"))
+            boxes.append((L, h / 2, L + bw, h, "S"))
+    else:
+        side = rng.choice(["low", "low", "high", "both"])
+        bx = rng.choice(["right", "right", "left"])
+        cpos = rng.choice(["above", "above", "below"])
+        ax0 = bw if bx == "left" else F(0)
+        ay0 = ch if cpos == "below" else F(0)
+        boxes.append((ax0, ay0, ax0 + W, ay0 + H, "A"))
+        b0, b1 = (F(0), bw) if bx == "left" else (W, W + bw)
+        spans = {"low": [(ay0, ay0 + d)], "high": [(ay0 + H - d, ay0 + H)],
+                 "both": [(ay0, ay0 + d), (ay0 + H - d, ay0 + H)]}[side]
+        for y0, y1 in spans:
+            boxes.append((b0, y0, b1, y1, "B"))
+        if rng.random() < 0.4 and side != "both":       # the rest of B's column
+            y0, y1 = (ay0 + d, ay0 + H) if side == "low" else (ay0, ay0 + H - d)
+            boxes.append((b0, y0, b1, y1, "D"))
+        cuts = sorted(rng.sample(cs, rng.choice([1, 1, 2]) if len(cs) > 1 else 1))
+        cy0, cy1 = (F(0), ch) if cpos == "below" else (ay0 + H, ay0 + H + ch)
+        r = rng.random()
+        if r < 0.4:          # C over the left end
+            boxes.append((ax0, cy0, ax0 + cuts[0], cy1, "C"))
+            if len(cuts) > 1:
+                boxes.append((ax0 + cuts[0], cy0, ax0 + cuts[1], cy1, "C"))
+        elif r < 0.7:        # C over the right end
+            boxes.append((ax0 + cuts[-1], cy0, ax0 + W, cy1, "C"))
+            if len(cuts) > 1:
+                boxes.append((ax0 + cuts[0], cy0, ax0 + cuts[1], cy1, "C"))
+        else:                # a row of cells over the whole of A
+            marks = [F(0)] + [F(c) for c in cuts] + [W]
+            boxes += [(ax0 + a, cy0, ax0 + b, cy1, "C") for a, b in zip(marks, marks[1:])]
+        if kind == "piece-kept":
+            e0 = max(b[2] for b in boxes)
+            boxes.append((e0, ay0, e0 + 4, ay0 + H, "E"))
+    if kind.endswith("-T"):
+        boxes = [(b[1], b[0], b[3], b[2], b[4]) for b in boxes]
+    x0, y0 = F(rng.randrange(0, 4), 2), F(rng.randrange(0, 4), 2)
+    cells = []
+    for b in boxes:
+        r = {"cx": x0 + (b[0] + b[2]) / 2, "cy": y0 + (b[1] + b[3]) / 2, "w": b[2] - b[0], "h": b[3] - b[1],
+             "fixed": False, "hard": False, "region": "_", "loc": "NOPOLY"}
+        al = [[m, rng.choice(ac.RATIOS[1:])] for m in rng.sample(mods, rng.randrange(0, 3))]
+        if b[4] == "A" and not al:
+            al = [["M1", F(1, 2)]]
+        if b[4] in ("B", "C", "R") and rng.random() < 0.15:      # the neighbour defining a line may be a fixed cell
+            r["fixed"] = r["hard"] = True
+            al = [["FX", F(1)]]
+        cells.append({"rect": r, "alloc": al, "depth": rng.choice([0, 0, 1])})
+    rng.shuffle(cells)
+    hops = [["apply", 0, ["griddify"]]]
+    r = rng.random()
+    if r < 0.25:
+        hops += [["apply", 1, ["griddify"]]]                    # the gridded allocation gridded again
+    elif r < 0.4:
+        hops = [["mbr", 0, F(1)], ["apply", 0, ["griddify"]], ["apply", 0, ["griddify"]]]
+    elif r < 0.55:
+        hops = [["apply", 0, ["refine", F(1), 1]], ["apply", 1, ["griddify"]], ["apply", 0, ["griddify"]]]
+    elif r < 0.65:
+        hops += [["setfixed", 0, rng.randrange(0, 16), True], ["apply", 0, ["griddify"]]]
+    return {"kind": f"sliver3-{kind}", "cells": cells, "hops": hops,
+            "eps": F(1, 2 ** 20), "aeps": rng.choice([F(1, 2 ** 10), F(0)])}
+
+
 def vary(rng, case):
     """Apply (independently, each with a small probability) the variations to a generated history case."""
     tags = []
